@@ -87,7 +87,7 @@ def s_hash(F, res):
     ws_root = {repr(x) for x in mir.provenance(e, du2, rv["ops"][rv["fields"].index("transaction_witness_set")], transparent_extra=())}
     ax_root = {repr(x) for x in mir.provenance(e, du2, rv["ops"][rv["fields"].index("auxiliary_data")], transparent_extra=("std::option::Option::<T>::map",))}
     for fld, fn_pat, roots, label in (
-        ("script_data_hash", "compute_script_data_hash", ws_root, "witness set"),
+        ("script_data_hash", None, ws_root, "witness set"),
         ("auxiliary_data_hash", "Option::<T>::map", ax_root, "auxiliary data"),
     ):
         key = "%sentry_point|%s from the shipped %s" % (CO, fld, label)
@@ -95,11 +95,14 @@ def s_hash(F, res):
         good = bool(writes)
         for bi, s in writes:
             o = mir.provenance(e, du2, s["rv"]["op"]) if s["rv"]["k"] == "use" else []
-            calls = [x for x in o if x.kind == "call" and fn_pat in x.callee]
+            # fn_pat None: whichever function of the crate computes the field (free function or method, any parameter order)
+            calls = [x for x in o if x.kind == "call" and ((fn_pat in x.callee) if fn_pat else (x.callee in F.fns and F.fns[x.callee]["crate"] == "tx3_cardano"))]
             if not calls:
                 good = False
                 continue
-            arg_roots = {repr(x) for x in mir.provenance(e, du2, calls[0].term["args"][0], transparent_extra=("std::option::Option::<T>::as_ref",))}
+            arg_roots = set()
+            for a_ in (calls[0].term["args"] if fn_pat is None else calls[0].term["args"][:1]):
+                arg_roots |= {repr(x) for x in mir.provenance(e, du2, a_, transparent_extra=("std::option::Option::<T>::as_ref",))}
             if not (arg_roots & roots):
                 good = False
         if good:
@@ -326,14 +329,15 @@ def s_sets(F, res):
             key = "%s%s|network_id" % (CO, fname)
             if any(x.kind == "agg" and x.rv.get("variant") == "Some" for x in o):
                 inner = [y for x in o if x.kind == "agg" for y in mir.provenance(f, du, x.rv["ops"][0])]
-                if any(y.kind == "arg" and y.local == 2 for y in inner):
-                    # compile_tx_body(tx, network): the caller passes pparams.network
+                argl = [y.local for y in inner if y.kind == "arg"]
+                if argl and len(argl) == len(inner):
+                    # the body builder's network parameter (whichever position): the caller passes pparams.network there
                     e = F.fns[roles.builder_of(F, "tx3_cardano", "::Tx")]
                     du2 = mir.DefUse(e)
                     okk = False
                     for bi, t in mir.calls(e):
                         if call_matches(t, f["path"]):
-                            if any(".network" in z.proj for z in mir.provenance(e, du2, t["args"][1])):
+                            if all(0 <= a_ - 1 < len(t["args"]) and any(".network" in z.proj for z in mir.provenance(e, du2, t["args"][a_ - 1])) for a_ in set(argl)):
                                 okk = True
                     if okk:
                         res.add([ok("S-SETS", key, where(f), "network_id = Some(pparams.network)")])
